@@ -13,9 +13,11 @@ cargo test --offline --lib 2>&1 | grep -E "^test result|FAILED|failed" | head -8
 echo "== demo with the change (expect FAIL)"
 timeout 600 cargo test --offline --test "$DEMO" 2>&1 | grep -E "^test result|panicked|FAILED|error" | head -5
 echo "== demo without the change (expect PASS)"
-git stash push -q -- src
+# (no git stash: the stash is shared between worktrees and other agents may use it)
+git diff -- src > "$WT/OUT/.confirm_full.diff"
+git apply -R "$WT/OUT/.confirm_full.diff"
 if [ "$HOOKS" = 1 ]; then git apply OUT/demo_hooks.diff 2>/dev/null || echo "(demo hooks did not apply on clean tree)"; fi
 timeout 600 cargo test --offline --test "$DEMO" 2>&1 | grep -E "^test result|panicked|FAILED|error" | head -5
 git checkout -q -- src
-git stash pop -q
+git apply "$WT/OUT/.confirm_full.diff"
 echo "== restored; src diff lines: $(git diff -- src | wc -l)"
